@@ -13,8 +13,10 @@ RULE = (
     "thresholds 1-3 on the prefix length, with and without statistic transforms in the offered pack, ignore_parent "
     "on/off, before or after the atom strategy) so that 1-4 classes of the returned specification are verified with "
     "a pack, under every rule database; unary equivalences as inferral/initial put verified classes inside "
-    "equivalence paths. Non-trivial: at least 2 classes were expanded, or an expanded class was the end of an "
-    "equivalence path. Distinct = distinct canonical JSON of the scenario."
+    "equivalence paths; one case in seven is a 'reverse needed' scenario: a class verified with a pack (PackVerRev) "
+    "that cannot expand it forwards while the class with the prefix one letter shorter is verified by enumeration, so "
+    "the expansion has to fall back on a reverse rule. Non-trivial: at least 2 classes were expanded, an expanded class "
+    "was the end of an equivalence path, or the expansion introduced a reverse rule. Distinct = distinct canonical JSON of the scenario."
 )
 LEVEL_TEXT = (
     "Exploration with the C01 and C02 oracles applied to the expanded specification: it must enumerate the start "
@@ -74,12 +76,19 @@ def run_case(case, ctx):
             return
         # the expanded specification
         sub_packs = []
-        todo_strats = [s for s in pack.ver_strats if isinstance(s, U.PackVer)]
+        todo_strats = [s for s in pack.ver_strats if isinstance(s, (U.PackVer, U.PackVerRev))]
         while todo_strats:
             s_ = todo_strats.pop()
-            sub = s_.pack(U.WC("a", "a" * s_.minlen, []))
+            if isinstance(s_, U.PackVerRev):
+                sub = s_.pack(U.WC("ab", s_.prefix, []))
+            else:
+                sub = s_.pack(U.WC("a", "a" * s_.minlen, []))
             sub_packs.append(sub)
-            todo_strats.extend(x for x in sub.ver_strats if isinstance(x, U.PackVer))
+            todo_strats.extend(x for x in sub.ver_strats if isinstance(x, (U.PackVer, U.PackVerRev)))
+        if any(type(r).__name__ == "ReverseRule" for r in new.rules_dict.values()) and not any(
+            type(r).__name__ == "ReverseRule" for r in before_rules.values()
+        ):
+            ctx.label("expansion-needed-a-reverse-rule")
         speccheck.check_counts(ctx, new, start, N, part="expanded-count")
         speccheck.check_structure(ctx, new, start, [pack] + sub_packs, part="expanded-struct")
         # computed here, not through the method under test
@@ -119,11 +128,50 @@ def run_case(case, ctx):
                     ctx.fail("original-unusable", f"the original specification raises {describe_exc(e)} after expand_verified", "original-unusable/raises")
                     break
                 ctx.check(brute.equal_terms(again, before_terms[n]), "original-changed", f"the original counts differently after expand_verified at size {n}")
-        ctx.nontrivial = len(todo) >= 2 or (in_path and len(todo) >= 1)
+        ctx.nontrivial = len(todo) >= 2 or (in_path and len(todo) >= 1) or "expansion-needed-a-reverse-rule" in ctx.labels
+
+
+@st.composite
+def reverse_needed_scenario(draw, tier="quick"):
+    """The class C(xx) is verified with a pack that cannot expand it forwards; C(x) is
+    verified by enumeration (no pack), and C(xx) also appears below C(y): expanding the
+    verified classes needs C(xx) = C(x) - {x} - C(xy), a reverse rule."""
+    x, y = draw(st.sampled_from([("a", "b"), ("b", "a")]))
+    # xx? keeps the front of C(xx) from being peeled; yxy keeps C(y) and C(yx) from being
+    # peeled, so that C(y) -> C(yx) -> C(yxx) = {y} x C(xx) brings C(xx) into the specification
+    pats = {draw(st.sampled_from([x + x + y, x + x + x])), y + x + y}
+    for w in draw(st.lists(st.text(alphabet="ab", min_size=3, max_size=3), max_size=1)):
+        if not any(pre.startswith(w) or w in pre for pre in (x + x, y + x + x)):
+            pats.add(w)
+    nstats = draw(st.sampled_from([0, 0, 1, 2]))
+    stats = ["".join(sorted(set(draw(st.text(alphabet="abz", min_size=0, max_size=2))))) for _ in range(nstats)]
+    cls = ["ab", "", sorted(pats), 0, stats, draw(st.integers(0, 1)) if nstats else 0, 0]
+    order = draw(st.integers(0, 3))
+    pack = {
+        "initial": [["Peel", {"atom_last": draw(st.booleans())}]],
+        "inferral": [],
+        "expansion": [[["Expand", {"order": order}]]],
+        "ver": [["WordAtom", {}], ["BruteVer", {"minlen": 99, "prefixes": [x]}], ["PackVerRev", {"prefix": x + x, "order": draw(st.integers(0, 3))}]],
+        "symmetries": [],
+        "iterative": False,
+    }
+    return {
+        "class": cls,
+        "compressed": draw(st.sampled_from([0, 0, 1, 3])),
+        "pack": pack,
+        "db": draw(st.sampled_from(gen.DBS)),
+        "expand_verified": False,
+        "debug": False,
+        "call": {"mode": "auto", "max_time": 20.0, "smallest": False},
+        "clock": draw(gen.clock_script),
+        "rng": draw(st.integers(0, 2**16)),
+    }
 
 
 @st.composite
 def packver_scenario(draw, tier="quick"):
+    if draw(st.integers(0, 6)) == 0:
+        return draw(reverse_needed_scenario(tier))
     case = draw(gen.scenario(tier, allow_reverse_template=False, allow_pack=False, allow_iterative=False, finite=draw(st.integers(0, 4)) > 0))
     vers = []
     for _ in range(draw(st.sampled_from([1, 1, 2]))):
